@@ -8,7 +8,7 @@
 (*   tokenize / analyze: open = [k|->"ok"] | [k|->"err", e|->"MatchesEmptyString"];                      *)
 (*                next = [k|->"some", v|->item] | [k|->"none"]                 *)
 (* A prog is [ast, ng, F, lit, par, nullable, strict, bref].                   *)
-EXTENDS Syntax
+EXTENDS OpSem
 
 (* ---- compile ------------------------------------------------------------------ *)
 RECURSIVE LitAst(_)
@@ -19,7 +19,8 @@ MkProg(ast, ng, F, lit) ==
   [ast |-> ast, ng |-> ng, F |-> F, lit |-> lit,
    par |-> ParentFn(ast, ng),
    nullable |-> Nullable(ast, ng, F),
-   strict |-> Strict(ast), bref |-> HasBref(ast), iterambig |-> IterAmbig(ast)]
+   strict |-> Strict(ast), bref |-> HasBref(ast), iterambig |-> IterAmbig(ast),
+   sem |-> "ref"]                              \* which semantics the operations below use: see EngView
 
 (* Compile(pat, flags, X) -> [k |-> "ok", prog] | [k |-> "err", e |-> set of acceptable error kinds] | [k |-> "uns"] *)
 Compile(pat, flags, X) ==
@@ -67,9 +68,42 @@ InputUnspec(prog, s) == CaseUnspec(prog, s) \/ GcUnspec(prog, s) \/ LangUnspec(p
 SpanUnspec(prog, s) == InputUnspec(prog, s) \/ ~prog.strict
 CapUnspec(prog, s) == SpanUnspec(prog, s) \/ prog.iterambig
 
+(* ---- the engine's own capture discipline, as a second view of a program ----------------------------- *)
+(* Where the reference semantics is not the only acceptable one (IterAmbig: a group inside a quantified      *)
+(* term that a later execution of the term skips), the engine's design is the other: the groups inside a    *)
+(* Repeat are cleared when it is entered, everything else as the reference.  EngView(prog) makes every      *)
+(* operation of this module compute with OpSem!OpOrd on the operator tree the model lowers the pattern to   *)
+(* (every "rep?" kept as the backtracking repeat: by T21 the non-backtracking one computes the same).       *)
+(* Trace validation accepts, in that zone, exactly what one of the two views gives: a result that neither  *)
+(* semantics explains (a capture from an abandoned path, say) is reported.                                  *)
+RECURSIVE PlainRep(_)
+PlainRep(o) ==
+  CASE o.k = "rep?" -> [o EXCEPT !.k = IF MLen(o.r) = -1 THEN "repeat" ELSE IF o.greedy THEN "greedyfixed" ELSE "reluctantfixed",
+                                 !.r = PlainRep(o.r)]
+    [] o.k = "capture" \/ IsRep(o) -> [o EXCEPT !.r = PlainRep(o.r)]
+    [] o.k \in {"choice", "sequence"} -> [o EXCEPT !.xs = [j \in 1..Len(o.xs) |-> PlainRep(o.xs[j])]]
+    [] OTHER -> o
+EngTree(prog) == PlainRep(Program(prog, <<>>))
+EngFirstAt(prog, tree, s, i) == OpFirstAt(tree, prog.ng, s, i, prog.F)
+RECURSIVE EngFirstFrom(_, _, _, _), EngAllFrom(_, _, _, _, _)
+EngFirstFrom(prog, tree, s, from) ==
+  IF from > Len(s) + 1 THEN <<>>
+  ELSE LET o == EngFirstAt(prog, tree, s, from) IN
+       IF o # <<>> THEN [st |-> from, en |-> o[1], caps |-> o[2]] ELSE EngFirstFrom(prog, tree, s, from + 1)
+EngAllFrom(prog, tree, s, from, acc) ==
+  LET m == EngFirstFrom(prog, tree, s, from) IN
+  IF m = <<>> THEN acc
+  ELSE IF m.en > m.st THEN EngAllFrom(prog, tree, s, m.en, Append(acc, m))
+  ELSE IF m.en > Len(s) THEN Append(acc, m)
+  ELSE EngAllFrom(prog, tree, s, m.en + 1, Append(acc, m))
+
+EngView(prog) == [prog EXCEPT !.sem = "eng", !.nullable = EngFirstAt(prog, EngTree(prog), <<>>, 1) # <<>>]
+
 (* ---- is_match -------------------------------------------------------------------- *)
-OpIsMatch(prog, s) == [k |-> "ok", v |-> IsMatch(prog.ast, prog.ng, s, prog.F)]
-Matches(prog, s) == AllMatches(prog.ast, prog.ng, s, prog.F)
+OpIsMatch(prog, s) == [k |-> "ok", v |-> IF prog.sem = "eng" THEN EngFirstFrom(prog, EngTree(prog), s, 1) # <<>>
+                                         ELSE IsMatch(prog.ast, prog.ng, s, prog.F)]
+Matches(prog, s) == IF prog.sem = "eng" THEN EngAllFrom(prog, EngTree(prog), s, 1, <<>>)
+                    ELSE AllMatches(prog.ast, prog.ng, s, prog.F)
 
 (* ---- replacement strings (C15) ------------------------------------------------------ *)
 GroupText(s, m, n, ng) ==                    \* nothing for a group that is unset or does not exist
@@ -109,7 +143,8 @@ OpReplace(prog, s, repl) ==
             ELSE [k |-> "ok", v |-> Splice(s, ms, [j \in 1..Len(ms) |-> ex[j][2]], 1, 1, <<>>)]
 
 (* ---- tokenize (C04, C06, C16) -- iterator record [cur, done] ---------------------------- *)
-FirstM(prog, s, from) == FirstFrom(prog.ast, prog.ng, s, from, prog.F)
+FirstM(prog, s, from) == IF prog.sem = "eng" THEN EngFirstFrom(prog, EngTree(prog), s, from)
+                         ELSE FirstFrom(prog.ast, prog.ng, s, from, prog.F)
 TokOpen(prog, s) ==
   IF s = <<>> THEN [k |-> "ok", it |-> [cur |-> 1, done |-> TRUE]]          \* no tokens at all, whatever the regex
   ELSE IF prog.nullable THEN [k |-> "err", e |-> "MatchesEmptyString"]
